@@ -116,7 +116,7 @@ def rand_gate2(rng, a, b, pool):
 # ------------------------------------------------------------------------------------------------
 def gen_spec(rng, tier, it):
     nmax = 5 if tier == "quick" else 6
-    n = int(rng.integers(1, nmax + 1))
+    n = int(rng.choice(range(1, nmax + 1), p=([0.06, 0.2, 0.28, 0.26, 0.2] if nmax == 5 else [0.05, 0.15, 0.22, 0.22, 0.2, 0.16])))
     form = ["dict_explicit", "dict_auto", "single_cut_gates", "single_pcq"][int(rng.choice(4, p=[0.45, 0.2, 0.2, 0.15]))]
     # idle qubits
     idle = []
@@ -508,9 +508,10 @@ def fixed_specs():
 
 def generate(rng, tier, outdir):
     w = CaseWriter(outdir, IMPORTS, CASE_TYPES)
+    w.SHARD = 16  # the structural check enumerates the whole product space: keep shards small, they run in parallel
     # deterministic budget: a number of requests and a cap on the total number of subexperiments simulated
-    max_cases = 150 if tier == "quick" else 1500
-    max_circuits = 45000 if tier == "quick" else 600000
+    max_cases = 200 if tier == "quick" else 1500
+    max_circuits = 18000 if tier == "quick" else 600000
     t0 = time.time()
     ncirc = 0
     for spec in fixed_specs():
